@@ -203,6 +203,26 @@ pub fn c03() -> Outcome {
             }
         }
     }
+    // fixed values of tiny magnitude (below machine epsilon) against huge coefficients: the folded coefficient is of order one and must stay
+    {
+        use v1::function::Function as F;
+        let t60 = 2f64.powi(-60); let b60 = 2f64.powi(60);
+        let cases: Vec<(Function, Vec<(u64, f64)>, Vec<(u64, f64)>, f64)> = vec![
+            (f_of(F::Polynomial(poly(&[(&[1, 2, 3], b60), (&[2], 1.0)]))), vec![(1, t60)], vec![(2, 0.5), (3, 4.0)], 2.5),
+            (f_of(F::Polynomial(poly(&[(&[1, 4, 2, 3], 1.0), (&[3], -1.0)]))), vec![(1, t60), (4, b60)], vec![(2, 0.5), (3, 4.0)], -2.0),
+            (f_of(F::Quadratic(quad(&[(1, 2, b60)], Some(lin(&[(1, b60)], 0.0))))), vec![(1, t60)], vec![(2, 3.0)], 4.0),
+            (f_of(F::Linear(lin(&[(1, b60), (2, 1.0)], 0.0))), vec![(1, t60)], vec![(2, 3.0)], 4.0),
+        ];
+        for (k, (f, fixed, rest, want)) in cases.iter().enumerate() {
+            n += 1; d.insert((3000 + k, 0));
+            let mut g = f.clone();
+            if let Err(e) = g.partial_evaluate(&state(fixed)) { return Outcome { cases: n, distinct: d.len(), fail: Some(format!("partial_evaluate failed ({e}): f={f:?} fixed={fixed:?}")) }; }
+            match g.evaluate(&state(rest)) {
+                Ok((v, _)) => if v != *want { return Outcome { cases: n, distinct: d.len(), fail: Some(format!("f={f:?}: fixing {fixed:?} and evaluating the remainder {g:?} at {rest:?} gives {v}, the original at the combined assignment gives {want} (exact in binary arithmetic)")) }; },
+                Err(e) => return Outcome { cases: n, distinct: d.len(), fail: Some(format!("evaluating the partially evaluated function failed ({e}): f={f:?} fixed={fixed:?} result={g:?}")) },
+            }
+        }
+    }
     // two steps = at once, every sample function, several splits of the fixed part (values and returned ids)
     for (fi, f) in sample_functions().iter().enumerate() { for (ma, mb) in [(0b000011u32, 0b001100u32), (0b010101, 0b101010), (0b000001, 0b111110), (0b100100, 0b000011), (0b000111, 0)] {
         n += 1; d.insert((1000 + fi, ma * 64 + mb));
@@ -384,6 +404,7 @@ pub fn c12() -> Outcome {
         if ri % 17 == 5 { note(|| format!("log_encode(3) with variables {layout:?}, integer range [{l}, {u}]")); }
         let dvs: Vec<DecisionVariable> = layout.iter().map(|&id| if id == 3 { dv(3, Kind::Integer, Some((*l, *u))) } else { dv(id, Kind::Continuous, None) }).collect();
         let mut i = inst(dvs, Function::default(), vec![]);
+        if ri % 2 == 1 { let m = layout.iter().cloned().max().unwrap(); let mut v = dv(m + 1, Kind::Continuous, None); v.substituted_value = Some(0.0); i.decision_variables.insert(0, v); }   // a fixed variable keeps its id (the next free one is m + 2)
         let before = i.clone();
         let lo = l.ceil(); let up = u.floor();
         match i.log_encode(3) {
@@ -393,7 +414,7 @@ pub fn c12() -> Outcome {
                 if lo > up { return Outcome { cases: n, distinct: d.len(), fail: Some(format!("log_encode succeeded for [{l}, {u}] which contains no integer")) }; }
                 let new: Vec<&DecisionVariable> = i.decision_variables[before.decision_variables.len()..].iter().collect();
                 if i.decision_variables[..before.decision_variables.len()] != before.decision_variables[..] { return Outcome { cases: n, distinct: d.len(), fail: Some("existing variables changed".to_string()) }; }
-                let old_ids: BTreeSet<u64> = layout.iter().cloned().collect();
+                let old_ids: BTreeSet<u64> = before.decision_variables.iter().map(|v| v.id).collect();
                 let mut seen = BTreeSet::new();
                 for v in &new {
                     if old_ids.contains(&v.id) || !seen.insert(v.id) || v.kind != Kind::Binary as i32 || v.bound.as_ref().map(|b| (b.lower, b.upper)) != Some((0.0, 1.0)) || !v.subscripts.contains(&3) {
@@ -552,6 +573,7 @@ pub fn c14() -> Outcome {
             for k in ids {
                 let sid = sts[*k].0;
                 let fa = *ss.feasible_unrelaxed().get(&sid).ok_or(format!("no feasibility entry for sample {sid}"))?; let fr = *ss.feasible_relaxed().get(&sid).ok_or(format!("no relaxed feasibility entry for sample {sid}"))?;
+                if ss.feasible_unrelaxed_ids().contains(&sid) != fa || ss.feasible_ids().contains(&sid) != fr { return Err(format!("sample {sid}: feasible_unrelaxed_ids() = {:?} and feasible_ids() = {:?} disagree with the feasibility tables (feasible for all constraints {fa}, for the active ones {fr})", ss.feasible_unrelaxed_ids(), ss.feasible_ids())); }
                 let mut vs: Vec<(u64, f64)> = vec![]; for c in &ss.constraints { vs.push((c.id, c.evaluated_values.as_ref().and_then(|v| v.get(sid)).ok_or(format!("constraint {} has no value for sample {sid}", c.id))?)); } vs.sort_by_key(|x| x.0);
                 // the same state through evaluate
                 let (sol, _) = i.evaluate(&state(&sts[*k].1)).map_err(|e| format!("evaluate failed: {e}"))?;
